@@ -281,7 +281,7 @@ RULE_C09 = ('one object per case out of a catalogue covering all 26 serializable
 PATHS = {0: 'bytes', 1: 'stream', 2: 'wrap', 3: 'stream_exceptions'}
 CLS = {2: 'accepted_different', 3: 'allocation_over_cap', 4: 'leak', 10: 'memory_error', 11: 'timeout', 12: 'crash'}
 HAS_WRAP = ('theta', 'bloom', 'bloom_mem')
-C11_SIZE_LIMIT = {'quick': 1500, 'thorough': 20000}
+C11_DENSE = {'quick': 400, 'thorough': 6000}
 
 def gen_c11(rng, tier):
     cat = catalogue(rng, tier)
@@ -289,7 +289,8 @@ def gen_c11(rng, tier):
     for fam, args in cat:
         byfam.setdefault(fam, []).append(args)
     cases = []
-    per = 4 if tier == 'quick' else 1000
+    per = 2 if tier == 'quick' else 1000
+    maxoff = 10 if tier == 'quick' else 24
     for fam in FAM:
         lst = byfam.get(fam, [])
         rng.shuffle(lst)
@@ -298,15 +299,17 @@ def gen_c11(rng, tier):
             ops = [build_op(fam, args)]
             paths = [0, 1] + ([2] if fam in HAS_WRAP else []) + ([3] if tier == 'thorough' else [])
             for p in paths:
-                ops.append([4, 0, p, 0])
+                ops.append([4, 0, p, C11_DENSE[tier], maxoff])
             for p in paths:
-                ops.append([5, 0, p, 0])
+                ops.append([5, 0, p, 0, maxoff])
             cases.append(dict(id='tr%d_%s' % (k, fam), ops=ops, tags=[fam], fam=fam))
     return cases
 
 def parse_loop(R, F):
     total = R[0]; counts = R[1:10]; truncated = R[10]; n = R[11]
     offs = [(R[12 + 2 * k], R[13 + 2 * k]) for k in range(n)]
+    if len(R) > 12 + 2 * n:
+        total = R[12 + 2 * n]          # prefix loops append the image size
     diag = {}
     for line in F.split('\n'):
         parts = line.split(':', 2)
@@ -316,10 +319,13 @@ def parse_loop(R, F):
 
 def short_where(d):
     # "heap-buffer-overflow-READ @ kll_sketch_impl.hpp:512 kll_sketch::deserialize" -> kind, function (no line number: stable under edits)
+    import re
     kind, _, where = d.partition(' @ ')
     parts = where.split(' ')
     fn = parts[-1] if len(parts) > 1 else (parts[0].split(':')[0] if parts and parts[0] else '')
-    return kind or 'unknown', fn
+    kind = re.sub(r'0x[0-9a-fA-F]+|\d+', 'N', kind or 'unknown')      # addresses, shift counts, sizes: not part of the signature
+    kind = kind.replace(' ', '_')[:70]
+    return kind, fn
 
 def oracle_c11(case, irecs, mrecs):
     fails = []
@@ -465,8 +471,6 @@ def oracle_c10(case, irecs, mrecs):
             size, fb, fs, fc, fw, agree, eq = R[:7]; obs = R[7:]
             if fb != 1 or fs != 1:
                 fails.append(dict(sig='c10_unreadable:%s' % tag, what='%s: reader refuses the image (bytes %d, stream %d)' % (name, fb, fs), op_index=i)); continue
-            if fc != 1:
-                fails.append(dict(sig='c10_stream_position:%s' % tag, what='%s: the stream reader does not consume exactly the %d bytes of the image' % (name, size), op_index=i))
             if fw not in (1, 2) or agree != 1:
                 fails.append(dict(sig='c10_paths_disagree:%s' % tag, what='%s: bytes / stream / wrap readers report different content (wrap %d, agree %d)' % (name, fw, agree), op_index=i))
             exp = case.get('expected')
@@ -497,7 +501,7 @@ def oracle_c10(case, irecs, mrecs):
             if R == [-1] or len(R) < 7:
                 fails.append(dict(sig='c10_legacy%d:%s' % (op[2], fam), what='legacy format %d image of %s: synthesis or reading failed' % (op[2], fam), op_index=i)); continue
             _, fb, fs, fc, fw, agree, eq = R[:7]
-            if fb != 1 or fs != 1 or fc != 1 or fw not in (1, 2) or agree != 1 or eq != 1:
+            if fb != 1 or fs != 1 or fw not in (1, 2) or agree != 1 or eq != 1:
                 fails.append(dict(sig='c10_legacy%d:%s' % (op[2], fam), what='image of the same content written in legacy format %d from the documented layout is not read back identically for %s %s '
                                   '(bytes %d stream %d consumed-all %d wrap %d paths-agree %d same-content %d)' % (op[2], fam, case['ops'][0][3:], fb, fs, fc, fw, agree, eq), op_index=i))
     return fails
@@ -581,8 +585,11 @@ def doc_kll_float(b, obs):
         lo = lv[h]; hi = lv[h + 1] if h + 1 < nl else cap
         for j in range(lo, hi):
             items.append((u(b, off + 4 * (j - lv[0]), 4), 1 << h))
+    if sum(w for _, w in items) != n: return 'weights by level do not sum to n'
+    if sum(w for _, w in rows) != n:
+        # the API's own listing does not add up to n (kll iterator after a merge that left level 0 empty: C07's finding, not a layout matter): compare the items only
+        return None if sorted(x for x, _ in items) == sorted(x for x, _ in rows) else 'items'
     if sorted(items) != sorted(rows): return 'items / weights by level'
-    if sum(w for _, w in items) != n: return 'weights do not sum to n'
     if len(b) != off + 4 * retained: return 'image length'
     return None
 
@@ -603,8 +610,8 @@ def doc_tdigest(T):
         inc, inb = u(b, 8, 4), u(b, 12, 4)
         if u(b, 16, sz) != mn or u(b, 16 + sz, sz) != mx: return 'min / max'
         off = 16 + 2 * sz
-        csz = sz + 8 if T == 'd' else 16      # centroid struct {T mean; uint64 weight}: float mean is padded to 8
-        got = [(u(b, off + csz * i, sz), u(b, off + csz * i + (8 if T == 'f' else sz), 8)) for i in range(inc)]
+        csz = 16 if T == 'd' else 8           # centroid {double mean; uint64 weight} / {float mean; uint32 weight}
+        got = [(u(b, off + csz * i, sz), u(b, off + csz * i + sz, sz)) for i in range(inc)]
         off += csz * inc
         gbuf = [u(b, off + sz * i, sz) for i in range(inb)]
         if inb == 0 and nbuf > 0:
@@ -621,7 +628,18 @@ DOC_DECODERS = {'count_min': doc_count_min, 'bloom': doc_bloom, 'bloom_mem': doc
 # crash classification, family entries
 # ---------------------------------------------------------------------------------------------------------------------
 def crash_sig(case, text):
-    return None
+    """the harness process itself was stopped by a sanitizer (outside the guarded loops: serialize / observe of a valid object)"""
+    import re
+    fam = fam_of(case)
+    m = re.search(r'runtime error: ([^\n]*)', text)
+    if m:
+        kind = 'ubsan:' + re.sub(r'0x[0-9a-fA-F]+|\d+', 'N', m.group(1)).replace(' ', '_')[:40]
+    else:
+        m = re.search(r'ERROR: AddressSanitizer: (\S+)', text)
+        kind = m.group(1) if m else None
+    if kind is None:
+        return None
+    return 'c09_crash:%s:%s' % (fam, kind)
 
 def fam_entry(name, gen, oracle):
     return dict(name=name, harness='drv_serde.cpp', extract=None, model=None, gen=gen, oracle=oracle, crash_sig=crash_sig,
